@@ -401,6 +401,20 @@ func runC20(r *core.Run) {
 			matrix.Matrix3{{e + 3, a, b}, {a, e + 4, d}, {b, d, e + 5}}, matrix.Matrix3{{1, a, b}, {-a, 1, d}, {-b, -d, 1}},
 			matrix.Matrix3{{e, 0, 0}, {a, e + 1, 0}, {b, d, e + 2}}, matrix.Matrix3{{e, a, b}, {0, e + 1, d}, {0, 0, e + 2}})
 	}
+	// matrices a hair away from the identity, from a permutation and from -identity (a shortcut that
+	// treats "almost the identity" as the identity drops exactly these), and uniformly tiny / huge ones
+	for _, eps := range []float64{1e-15, 1e-12, 1e-9, 6e-8, 1e-7, 9.9e-8, 1.1e-7, 1e-6, 1e-4} {
+		a, b := rgs.Uniform(-1, 1), rgs.Uniform(-1, 1)
+		structured = append(structured,
+			matrix.Matrix3{{1 + eps, 0, 0}, {0, 1, 0}, {0, 0, 1 - eps}},
+			matrix.Matrix3{{1, eps, 0}, {0, 1, 0}, {-eps, 0, 1}},
+			matrix.Matrix3{{1 + eps*a, eps * b, eps}, {eps * a, 1 - eps, eps * b}, {eps, eps * a, 1 + eps*b}},
+			matrix.Matrix3{{eps, 1, 0}, {0, eps, 1}, {1, 0, -eps}},
+			matrix.Matrix3{{-1 - eps, 0, 0}, {0, -1, eps}, {0, 0, -1 + eps}})
+	}
+	for _, sc := range []float64{1e-8, 1e-3, 1e3, 1e8} {
+		structured = append(structured, matrix.Matrix3{{sc, 2 * sc, 3 * sc}, {0, sc, 4 * sc}, {5 * sc, 6 * sc, 0}}, matrix.Matrix3{{sc, 0, 0}, {0, sc, 0}, {0, 0, sc}})
+	}
 	for _, m := range append([]matrix.Matrix3{}, structured...) {
 		var neg matrix.Matrix3
 		for c := 0; c < 3; c++ {
